@@ -1,8 +1,12 @@
+import IpcModel.Gen
 /-! C09 mid-send case: who keeps the dedicated socket's receiving end alive while the sender writes follow-ups. -/
 namespace NoHang
 
 structure Variant where
   keepOwnRef : Bool     -- legacy: the sender holds its own descriptor of the dedicated receive end until send() returns
+
+/-- the variant the translator reads from `OsIpcSender::send` now -/
+def codeVariant : Variant := ⟨Gen.vKeepOwnRef⟩
 
 structure St where
   senderRef : Bool      -- sender's own copy of the dedicated rx
